@@ -526,4 +526,74 @@ theorem IsFactorization.complete {n : Nat} {l : List (Nat × Nat)} (h : IsFactor
   exact ⟨pe.2, by rw [this]; exact hpe⟩
 
 
+/-! ### the executable specification (trial division) is the arithmetic definition -/
+
+theorem specMinFacFrom_eq (n : Nat) (hn : 2 ≤ n) :
+    ∀ (fuel d : Nat), 2 ≤ d → (∀ k, 2 ≤ k → k < d → ¬ k ∣ n) → n < (d + fuel) * (d + fuel) →
+      specMinFacFrom n fuel d = n.minFac := by
+  have hmf : n.minFac.Prime := Nat.minFac_prime (by omega)
+  have hge : ∀ d, (∀ k, 2 ≤ k → k < d → ¬ k ∣ n) → d ≤ n.minFac := by
+    intro d hd
+    by_contra hlt
+    exact hd n.minFac hmf.two_le (by omega) (Nat.minFac_dvd n)
+  have hprime : ∀ d, (∀ k, 2 ≤ k → k < d → ¬ k ∣ n) → n < d * d → n.minFac = n := by
+    intro d hd hlt
+    by_contra hne
+    have hnp : ¬ n.Prime := fun hp => hne hp.minFac_eq
+    have h1 := Nat.minFac_sq_le_self (by omega) hnp
+    have h2 := hge d hd
+    have : d * d ≤ n.minFac * n.minFac := Nat.mul_le_mul h2 h2
+    rw [sq] at h1
+    omega
+  intro fuel
+  induction fuel with
+  | zero =>
+    intro d _ hd hlt
+    simp only [specMinFacFrom]
+    exact (hprime d hd (by simpa using hlt)).symm
+  | succ f ih =>
+    intro d hd2 hd hlt
+    unfold specMinFacFrom
+    by_cases h1 : d * d > n
+    · rw [if_pos h1]; exact (hprime d hd h1).symm
+    · rw [if_neg h1]
+      by_cases h2 : n % d = 0
+      · rw [if_pos h2]
+        have := Nat.minFac_le_of_dvd hd2 (Nat.dvd_of_mod_eq_zero h2)
+        have := hge d hd
+        omega
+      · rw [if_neg h2]
+        apply ih (d + 1) (by omega)
+        · intro k hk2 hkd
+          by_cases hkd' : k < d
+          · exact hd k hk2 hkd'
+          · have : k = d := by omega
+            subst this
+            exact fun hdvd => h2 (Nat.mod_eq_zero_of_dvd hdvd)
+        · rw [show d + 1 + f = d + (f + 1) by omega]; exact hlt
+
+theorem specMinFac_eq (n : Nat) (hn : 2 ≤ n) : specMinFac n = n.minFac := by
+  unfold specMinFac
+  apply specMinFacFrom_eq n hn n 2 (Nat.le_refl _)
+  · intro k h1 h2; omega
+  · nlinarith
+
+theorem specIsPrime_eq (n : Nat) : specIsPrime n = decide n.Prime := by
+  unfold specIsPrime
+  by_cases hn : 2 ≤ n
+  · rw [specMinFac_eq n hn]
+    by_cases hp : n.Prime
+    · simp [hp, hn]
+    · have : ¬ n.minFac = n := fun h => hp (Nat.prime_def_minFac.mpr ⟨hn, h⟩)
+      simp [hp, this]
+  · have hp : ¬ n.Prime := fun hp => hn hp.two_le
+    simp [hn, hp]
+
+theorem specPrimes_eq (N : Nat) : specPrimes N = (List.range (N + 1)).filter Nat.Prime := by
+  unfold specPrimes
+  apply List.filter_congr
+  intro x _
+  rw [specIsPrime_eq]
+
+
 end Rlib.Sieve
